@@ -178,6 +178,28 @@ def gen_1272(rng, tier):
     return lines
 
 
+def gen_duty(rng, tier):
+    """SX126x duty-cycled reception (the vendored reference wrapper has no call for it): SetRxDutyCycle over random and boundary periods"""
+    lines = []
+    vals = [0, 1, 255, 256, 65535, 65536, 0xFFFFFF, 300000, 200000]
+    for chip in ("sx1262", "sx1261"):
+        for k in range(12 if tier == "quick" else 200):
+            rxp, slp = (rng.choice(vals), rng.choice(vals)) if k % 3 == 0 else (rng.below(1 << 24), rng.below(1 << 24))
+            lines.append(H6 % ("phy", chip, 0, "-", "-") + " | rx d %d %d" % (rxp, slp))
+    return lines
+
+
+def duty_judge(case, impl, model):
+    """datasheet 13.1.6 SetRxDutyCycle: opcode 0x94, rxPeriod(23:0) then sleepPeriod(23:0), most significant byte first"""
+    t = case.split(" | ")[-1].split()
+    want = "w94%06x%06x" % (int(t[2]) & 0xFFFFFF, int(t[3]) & 0xFFFFFF)
+    if impl.startswith("Ok") and want not in impl.split():
+        cmd = [x for x in impl.split() if x.startswith("w94")]
+        return {"kind": "SetRxDutyCycle does not carry the commanded receive / sleep periods (datasheet: 0x94, rxPeriod(23:0), sleepPeriod(23:0))",
+                "sent": cmd, "expected": want}
+    return None
+
+
 def fifo_judge(case, impl, model):
     """datasheet rule, on the implementation alone: after set_payload the FIFO holds the payload from the TX base address on"""
     t = case.split(" | ")
@@ -238,6 +260,7 @@ def run(rep, tier, rng):
     # model vs driver (pin-level, exact); disagreements are judged against the reference below
     core.diff_stage(rep, "X:C13:model-vs-driver(pin level)", [l.replace(" | dumpregs", "") for l in phy_lines], lambda c, i, m: None)
     core.diff_stage(rep, "X:C13:sx1272 model-vs-driver(pin level + register file)", gen_1272(rng, tier), fifo_judge)
+    core.diff_stage(rep, "X:C13:sx126x SetRxDutyCycle (model-vs-driver + datasheet format)", gen_duty(rng, tier), duty_judge)
     po = core.run_lines(core.harness_bin(), phy_lines)
     ro = core.run_lines(core.harness_bin(), [p[1] for p in pairs])
     bad = 0
